@@ -363,7 +363,8 @@ def fam_displays(r, n):
                        "reveal_type([x for x in xs if x])", "reveal_type({k: v for k, v in d.items()})", "reveal_type({x for x in xs})",
                        "reveal_type('%s %d' % (a, 1))", "reveal_type('%(k)s' % {'k': 1, 'extra': 2})", "reveal_type('{} {}'.format(1))",
                        "reveal_type(f'{a}{xs}')", "reveal_type(xs + ['a'])", "reveal_type(d | {1: 2})", "reveal_type([*xs, *d])",
-                       "reveal_type({**d, 'k': b''})", "print('%d %s' % (1,))", "print('%(a)s %(b)s' % {'a': 1})"], r.randint(3, 7)):
+                       "reveal_type({**d, 'k': b''})", "print('%d %s' % (1,))", "print('%(a)s %(b)s' % {'a': 1})",
+                       "print('%(zeta)s %(alpha)s %(mid)s %(beta)s' % {'other': 1})", "print('%(k2)s %(k1)s %(k3)s' % {'k3': a})"], r.randint(3, 7)):
         lines.append("    " + e)
     lines.append("")
     return lines
@@ -652,9 +653,24 @@ def _assemble(blocks):
     return text.rstrip("\n") + "\n"
 
 
+def c16_module(seed, index):
+    """A module from the C16 generator (many kinds of diagnostics, asynq/await constructs, the same
+    function and helper names in every module) used as a C10 program."""
+    from ..c16 import generator as g16
+
+    gen = g16.Gen(seed, 1000003 + index, {"plain_text": True, "known_defect_atoms": False, "p_first_line": 0.1})
+    files, meta = gen.tree()
+    name = sorted(files)[0]
+    return files[name]
+
+
 def generate_program(seed, index, families=None):
     """One generated program: 1-3 blocks; returns (pid, code, family_names)."""
     r = Rng(seed, "c10", "gen", index)
+    if r.chance(0.12):
+        code = c16_module(seed, index)
+        if not any(ord(ch) > 127 or ch in "\x0c\x0b\x1c\x85" for ch in code):
+            return "gen:c16tree:%s" % hashlib.sha256(code.encode()).hexdigest()[:12], code, ["c16tree"]
     names = sorted(families or FAMILIES)
     k = 1 if r.chance(0.55) else (2 if r.chance(0.7) else 3)
     # bias: blocks of one program often come from the same family (same cache entries,
@@ -716,7 +732,64 @@ _EQUIV = {0: False, 1: True, 2: 2.0, 3: 3.0}
 
 
 class _LiteralSwap(_ast.NodeTransformer):
+    """0/1/2/3 <-> False/True/2.0/3.0, but never inside a type expression (subscript slices,
+    annotations): `Annotated[int, 1]` and `Annotated[int, True]` are EQUAL keys of CPython's typing
+    alias cache, so swapping there would make the sibling talk to its original through that cache."""
+
+    def __init__(self):
+        self.in_type = 0
+
+    def _typed(self, node):
+        if node is None:
+            return None
+        self.in_type += 1
+        try:
+            return self.visit(node)
+        finally:
+            self.in_type -= 1
+
+    def visit_Subscript(self, node):
+        node.value = self.visit(node.value)
+        node.slice = self._typed(node.slice)
+        return node
+
+    def visit_arg(self, node):
+        node.annotation = self._typed(node.annotation)
+        return node
+
+    def visit_AnnAssign(self, node):
+        node.annotation = self._typed(node.annotation)
+        node.target = self.visit(node.target)
+        if node.value is not None:
+            node.value = self.visit(node.value)
+        return node
+
+    def visit_FunctionDef(self, node):
+        node.returns = self._typed(node.returns)
+        self.generic_visit_fields(node, skip=("returns",))
+        return node
+
+    visit_AsyncFunctionDef = visit_FunctionDef
+
+    def generic_visit_fields(self, node, skip=()):
+        for field, old_value in _ast.iter_fields(node):
+            if field in skip:
+                continue
+            if isinstance(old_value, list):
+                new_values = []
+                for value in old_value:
+                    if isinstance(value, _ast.AST):
+                        value = self.visit(value)
+                        if value is None:
+                            continue
+                    new_values.append(value)
+                old_value[:] = new_values
+            elif isinstance(old_value, _ast.AST):
+                setattr(node, field, self.visit(old_value))
+
     def visit_Constant(self, node):
+        if self.in_type:
+            return node
         v = node.value
         if type(v) is int and v in _EQUIV:
             return _ast.copy_location(_ast.Constant(value=_EQUIV[v]), node)
@@ -753,6 +826,13 @@ def _has_set_of_non_ints(tree):
 
 def siblings(pid, code):
     out = []
+    try:
+        norm = _ast.unparse(_ast.parse(code)) + "\n"
+        if norm.strip() != code.strip():
+            # the program itself in the sibling's layout: same positions, original meaning
+            out.append(("%s#norm" % pid, norm))
+    except Exception:
+        pass
     for tag, make in (("typeswap", lambda t: _TypeSwap().visit(t)), ("litswap", lambda t: _LiteralSwap().visit(t)), ("reorder", _reorder)):
         try:
             tree = _ast.parse(code)
